@@ -5,7 +5,7 @@
 (* The concrete call (name + arguments in the harness' JSON vocabulary) is recorded in  *)
 (* lastOp, its outcome class in lastOut; hist is the path from Init (hidden by VIEW).   *)
 (* A refused call is UNCHANGED obj by construction - that is what the code is held to.   *)
-EXTENDS EzObject, TLC
+EXTENDS C3DFormat, TLC
 
 CONSTANTS
   PNames, ANames,        \* point / channel names (code sequences) that may be declared
@@ -17,6 +17,7 @@ CONSTANTS
   IdxSlack,              \* indexed frame() may target 0 .. Len(frm)+IdxSlack-1
   UserParams,            \* sequence of [g, p] records: the SetParam alphabet (besides the two rates)
   LockNames,             \* group names lockGroup/unlockGroup are tried with
+  WithReload,            \* TRUE: save + load (through the file format model) is an action
   Lookups,               \* TRUE: the read-only look-ups of C11 are explored in every state
   CallerIds,             \* identities of caller-side frame objects (C08); {} switches them off
   Phased                 \* TRUE: declarations and rates only before any frame exists, frames only once points, channels and
@@ -241,7 +242,14 @@ SetParamOutcome(gname, p) ==
   IF p.n = <<>> THEN "invalid_argument"
   ELSE IF p.t = TNONE THEN "runtime_error"
   ELSE "ok"
+\* Names that differ only by case are distinct in memory and identical in a file (names are stored upper-case):
+\* such collisions are outside the alphabet (the format, not the library, makes them unrepresentable).
+NoCaseCollision(gname, pname) ==
+  /\ \A i \in 1..Len(G) : Upper(G[i].n) = Upper(gname) => G[i].n = gname
+  /\ GroupIdx(G, gname) # 0 => \A k \in 1..Len(G[GroupIdx(G, gname)].p) :
+                                    Upper(G[GroupIdx(G, gname)].p[k].n) = Upper(pname) => G[GroupIdx(G, gname)].p[k].n = pname
 SetParam(gname, pspec) ==
+  NoCaseCollision(gname, pspec.n) /\
   LET built == ApplySets([MkParam(pspec.n, pspec.d) EXCEPT !.l = pspec.l], pspec.sets)
       p == built.p
       op == [op |-> "SetParam", g |-> gname, p |-> pspec]
@@ -368,6 +376,16 @@ Get(q) ==
   /\ lastOp' = q /\ lastOut' = r.out /\ lastRes' = r.res /\ lastSets' = <<>> /\ hist' = hist
   /\ UNCHANGED <<obj, callers, inScope>>
 
+(* ---------- save to a file and load it back (C01, C03, C04, C14) ---------- *)
+\* write() leaves the object alone and produces WriterModel(obj); c3d(path) builds ReaderModel(bytes).
+\* Enabled where the reader model is defined for the written bytes (every byte it consumes exists).
+ReloadPath == "reload.c3d"
+Reload ==
+  LET b == WriterModel(obj)  r == ReaderModel(b) IN
+  /\ Mand(obj.grp) /\ ReaderDefined(b) /\ r.out \in {"ok", "ios_failure", "invalid_argument"}
+  /\ Done(IF r.out = "ok" THEN r.obj ELSE obj, [op |-> "Reload", path |-> ReloadPath], r.out, <<>>)
+  /\ UNCHANGED callers
+
 (* ---------- the state machine ---------- *)
 Init ==
   /\ obj = DefaultObject
@@ -391,6 +409,7 @@ Next ==
   \/ \E k \in CallerIds, i \in IdxRange : AddCallerFrame(k, i)
   \/ \E f \in 1..MaxFrames, t \in Tags : CallerIds # {} /\ EditStored(f, t)
   \/ Lookups /\ \E q \in Queries(obj) : Get(q)
+  \/ WithReload /\ Reload
 
 Spec == Init /\ [][Next]_vars
 
@@ -447,6 +466,36 @@ NamesTrimmed ==
   /\ \A i \in 1..Len(obj.frm) : \A s \in 1..Len(obj.frm[i].a) : \A c \in 1..Len(obj.frm[i].a[s]) : TrimRight(obj.frm[i].a[s][c].n) = obj.frm[i].a[s][c].n
   /\ \A i \in 1..Len(PLabels) : TrimRight(PLabels[i]) = PLabels[i]
   /\ \A i \in 1..Len(ALabels) : TrimRight(ALabels[i]) = ALabels[i]
+\* C01: what was saved is what loads back (content: names upper-cased, everything else bit for bit)
+HasGapFrame(o) == \E i \in 1..Len(o.frm) : ~Filled(o.frm[i])
+\* known finding C01/C03 gap-frames-on-disk: empty frames created by extension are written as nothing
+KF_GapFramesOnDisk(o) == HasGapFrame(o) /\ \E i \in 1..Len(o.frm) : Filled(o.frm[i])
+RoundTrip ==
+  (Mand(obj.grp) /\ ~KF_GapFramesOnDisk(obj)) =>
+     LET b == WriterModel(obj)  r == ReaderModel(b) IN
+     /\ r.out = "ok" /\ r.end = Len(b)
+     /\ Content(r.obj) = Content(obj)
+\* C03 at design level: the layout ezc3d writes is self-consistent for every reachable object (all pointer arithmetic)
+WrittenFileConsistent ==
+  (Mand(obj.grp) /\ ~KF_GapFramesOnDisk(obj)) =>
+     (SelfConsistentKF(WriterModel(obj), obj) \/ (PrintT(<<"SCReport", SCReport(WriterModel(obj), obj)>>) /\ FALSE))
+\* C04 / C14 at design level: saving what was loaded reproduces the bytes (generation 2 = generation 3)
+SaveIdempotent ==
+  (Mand(obj.grp) /\ ~KF_GapFramesOnDisk(obj)) =>
+     LET b1 == WriterModel(obj)  r1 == ReaderModel(b1) IN
+     r1.out = "ok" =>
+        LET b2 == WriterModel(r1.obj)  r2 == ReaderModel(b2) IN
+        /\ r2.out = "ok" /\ Content(r2.obj) = Content(r1.obj)      \* load -> save -> load preserves the content
+        /\ WriterModel(r2.obj) = b2                                 \* and the next save is byte-identical
+\* the three I/O invariants with the file model evaluated once per state (TLC does not share work between invariants)
+IOInv ==
+  (Mand(obj.grp) /\ ~KF_GapFramesOnDisk(obj)) =>
+     LET b1 == WriterModel(obj)  r1 == ReaderModel(b1)
+         c01 == r1.out = "ok" /\ r1.end = Len(b1) /\ Content(r1.obj) = Content(obj)
+         c03 == SelfConsistentKF(b1, obj)
+         b2 == WriterModel(r1.obj)  r2 == ReaderModel(b2)
+         c04 == r1.out = "ok" => (r2.out = "ok" /\ Content(r2.obj) = Content(r1.obj) /\ WriterModel(r2.obj) = b2)
+     IN (c01 /\ c03 /\ c04) \/ (PrintT(<<"IOInv", [RoundTrip |-> c01, Consistent |-> c03, Idempotent |-> c04], SCReport(b1, obj)>>) /\ FALSE)
 AgreementInv == Agreement(obj)
 AgreePointsInv == inScope => AgreePoints(obj)
 AgreeFramesInv == AgreeFrames(obj)
